@@ -214,6 +214,54 @@ theorem spolyOp_agree {st : St α} (hs : StoreOK4 V st) (dst a b : Nat) :
             (hv2 v hr) "ok "
           exact ⟨e3, hv3, hs.2⟩
 
+
+/-- `ireduce iN qK` -/
+theorem ireduceOp_agree {st : St α} (hs : StoreOK4 V st) (n k : Nat) :
+    ireduceOp env' st n k = ireduceOp env st n k ∧ StoreOK4 V (ireduceOp env st n k).1 := by
+  have A : OpsAgree (F0 env) (F0 env') (V 0) := h.u.base.agree 0
+  have C : Closed (F0 env) (V 0) := h.u.base.closed 0
+  have hid := iGet_ok hs n
+  have hf := bGet_ok hs.1 k
+  obtain ⟨e, hv⟩ := B.isGroebnerQ_par A C (bord env 0) hid
+  unfold ireduceOp
+  dsimp only
+  rw [bord_eq h, e]
+  cases hq : (iGet st n).isGroebnerQ (F0 env) (bord env 0) with
+  | none => exact ⟨rfl, hs⟩
+  | some r =>
+    obtain ⟨id1, isG⟩ := r
+    have hid1 : B.AllMM (V 0) id1.gens := hv _ hq
+    have hs1 : StoreOK4 V { st with ids := St.setL st.ids n id1 } := hs.setI n id1 hid1
+    obtain ⟨e2, hv2⟩ := B.groebnerBasis_par A C (bord env 0) hid1
+    dsimp only
+    rw [e2]
+    have hgb : ∀ gb, (if isG = true then some id1 else id1.groebnerBasis (F0 env) (bord env 0))
+        = some gb → B.AllMM (V 0) gb.gens := by
+      intro gb hgb
+      split at hgb
+      · cases hgb; exact hid1
+      · exact hv2 gb hgb
+    generalize (if isG = true then some id1 else id1.groebnerBasis (F0 env) (bord env 0)) = res
+      at hgb ⊢
+    cases res with
+    | none => exact ⟨rfl, hs1⟩
+    | some gb =>
+      obtain ⟨e3, hv3⟩ := B.rem_par A C (bord env 0) BPoly.divFuel hf (hgb gb rfl)
+      dsimp only
+      rw [e3]
+      split_ifs with c1 c2
+      · exact ⟨rfl, hs1⟩
+      · exact ⟨rfl, hs1⟩
+      · cases hr : BPoly.rem (F0 env) (bord env 0) BPoly.divFuel (bGet st k).val gb.gens with
+        | error ek => exact ⟨rfl, hs1⟩
+        | ok o =>
+          cases o with
+          | none => exact ⟨rfl, hs1⟩
+          | some v =>
+            obtain ⟨e4, hv4⟩ := putB h hs1.1 k (r := { (bGet st k) with val := v }) rfl
+              (hv3 v hr) "ok "
+            exact ⟨e4, hv4, hs1.2⟩
+
 end Extra
 end Tables
 end Algobra
